@@ -84,8 +84,8 @@ tm = tb = 0
 for p in props:
     pid = p["id"]
     ms = glob.glob("%s/mutants/%s/*.diff" % (V, pid))
-    fire = [m for m in ms if not re.search(r"expect: (silent|refuse)", open(m).readline())]
-    ben = [m for m in ms if re.search(r"expect: (silent|refuse)", open(m).readline())]
+    fire = [m for m in ms if not re.search(r"expect: (silent|refuse|clears)", open(m).readline())]
+    ben = [m for m in ms if re.search(r"expect: (silent|refuse|clears)", open(m).readline())]
     tm += len(fire)
     tb += len(ben)
     w("| %s | %d | %d |" % (pid, len(fire), len(ben)))
